@@ -45,7 +45,7 @@ def run(tier, seed):
         if not enc["canonical"]:
             v.add_drift("library bytes differ from the spec's canonical encoding (allowed if still valid)", case)
         if not enc.get("writer_same", True):
-            v.violation("encode_to_writer wrote different bytes than encode", case)
+            v.violation("encode_to_writer does not deliver the bytes of encode (to a Vec, to writers that accept 1 / 7 bytes per call), or reports success to a writer that is full", case)
         # (i) independent reader
         ok, pv = parsed.get(o["id"], (False, None))
         if not ok:
